@@ -844,6 +844,15 @@ def plan(pid: str, tier: str, rng: random.Random) -> list[dict]:
                 for kind in ("before", "after", "on_failure"):
                     for ch in st.get(kind, []):
                         add(kind="policy", policy="starve:" + ch["ref"], spec=spec, name=name)
+    if pid in ("C02",):
+        # redelivery / reordering of the messages a plain run never has: SignalStage, CancelWorkflow / CancelStage, ResumeStage
+        for at in range(0, 12):
+            for pol in ("redeliver", "lifo"):
+                add(kind="inject", what="signal", stage=0, signame=1, persistent=True, at=at, spec=fam["suspend"], name="suspend", policy=pol)
+        for n in ("chain3", "diamond", "multitask"):
+            for at in range(1, 10, 2):
+                add(kind="inject", what="cancel", at=at, spec=fam[n], name=n, policy="redeliver")
+                add(kind="inject", what="pause", at=at, unpause_at=at + 3, spec=fam[n], name=n, policy="redeliver", cancel_with_unpause=False)
     if pid in ("C05",):
         # the explicit waiting states: paused (and resumed), suspended (and signalled) - after the resume / the signal the
         # workflow must finish; while parked it must be waiting, not stuck
